@@ -728,7 +728,7 @@ fn ent_op(g: &mut Gen, r: &dyn Runner, tgt: &str, absent_pct: u64) -> String {
 
 /// A stored key of `a` whose removal leaves a tombstone (its bucket sits in a run of at least one
 /// group width of non-EMPTY control bytes), if there is one.
-fn ent_tomb_key(g: &mut Gen, r: &dyn Runner) -> Option<u64> {
+pub fn ent_tomb_key(g: &mut Gen, r: &dyn Runner) -> Option<u64> {
     let d = r.dump("a");
     if d.is_singleton {
         return None;
